@@ -1,0 +1,26 @@
+// Copyright (c) 2019 The BFE Authors.
+//
+// Licensed under the Apache License, Version 2.0 (the "License");
+// you may not use this file except in compliance with the License.
+// You may obtain a copy of the License at
+//
+//     http://www.apache.org/licenses/LICENSE-2.0
+//
+// Unless required by applicable law or agreed to in writing, software
+// distributed under the License is distributed on an "AS IS" BASIS,
+// WITHOUT WARRANTIES OR CONDITIONS OF ANY KIND, either express or implied.
+// See the License for the specific language governing permissions and
+// limitations under the License.
+
+//go:build !verif
+
+// Trace hooks are compiled out without the build tag `verif` (see zz_verif_trace.go).
+
+package pipe
+
+type verifTraceState struct{}
+
+func (p *Pipe) verifTraceIO(op string, d []byte, n *int, err *error) {}
+func (p *Pipe) verifTraceBlock(d []byte)                             {}
+func (p *Pipe) verifTraceClose(dst *error, err error)                {}
+func (p *Pipe) verifTraceRelease()                                   {}
